@@ -593,6 +593,7 @@ class Obligation(object):
 
 
 SOLVER_TIMEOUT_MS = int(os.environ.get('KVC_TIMEOUT_MS', '20000'))
+AUTO_LEMMA_MS = int(os.environ.get('KVC_AUTO_LEMMA_MS', '1500'))     # budget of the silently applied sum lemmas
 BRANCH_TIMEOUT_MS = 3000
 
 
@@ -806,9 +807,7 @@ class Ctx(object):
         else:
             hs = self.hyps(inst)
             verdict, model, backend, reason = discharge(hs, g, timeout or self.run.timeout_ms)
-            mj = None
-            if verdict == 'refuted' and model is not None:
-                mj = self.concretise(model)
+            mj = model if verdict == 'refuted' else None
             ob = Obligation(name, kind, verdict, time.time() - t0, backend, path, mj, reason, where)
         ob.expect = expect
         ob.config = self.run.config_name
@@ -878,7 +877,7 @@ class Ctx(object):
                 a_ = z3.substitute(varying, (j0.t, i.t))
                 b_ = z3.substitute(srec['keep'][1], (j0.t, i.t))
                 rng = z3.And(i.t >= 0, i.t < zterm(_generic(n)))
-                v, _m, _b, _r = discharge(self.hyps([i]) + [rng], a_ == b_, 5000, quick=True)
+                v, _m, _b, _r = discharge(self.hyps([i]) + [rng], a_ == b_, AUTO_LEMMA_MS, quick=True)
                 if v == 'proved':
                     inner = srec['term']
                     if 'lemma sum_ext applied automatically' not in self.trace:
@@ -899,7 +898,7 @@ class Ctx(object):
             fn(i)
             hs = self.hyps([i])
             rng = z3.And(i.t >= 0, i.t < zterm(_generic(n)))
-            v, _m, _b, _r = discharge(hs + [rng], zbool(vi >= 0), 5000, quick=True)
+            v, _m, _b, _r = discharge(hs + [rng], zbool(vi >= 0), AUTO_LEMMA_MS, quick=True)
             if v == 'proved':
                 self.pc.append(zbool(inner >= 0))
                 self.trace.append('lemma sum_nonneg applied automatically') if 'lemma sum_nonneg applied automatically' not in self.trace else None
@@ -1024,12 +1023,24 @@ def _split_factors(t, j):
 
 
 def check_sat(assertions, timeout_ms):
-    s = z3.Solver()
-    s.set('timeout', timeout_ms)
-    for a in assertions:
-        s.add(a)
-    r = s.check()
-    return str(r)
+    """satisfiability of a set of assertions: 'unsat' only when certain"""
+    try:
+        c = _CTX[0]
+        abst = c.__dict__.setdefault('_abst', _Abstraction()) if c is not None else None
+        ab, nfresh = _abstract_nl(list(assertions), abst)
+        s = z3.Solver()
+        s.set('timeout', max(timeout_ms, 2000))
+        for a in ab:
+            s.add(a)
+        r = s.check()
+        if r == z3.unsat:
+            return 'unsat'
+        if nfresh == 0:
+            return str(r)
+    except z3.Z3Exception:
+        pass
+    r, _m, _w = _forked(list(assertions), max(1, timeout_ms // 1000))
+    return r
 
 
 def _external(smt2, timeout_ms):
@@ -1053,12 +1064,38 @@ def _external(smt2, timeout_ms):
     return 'unknown', ''
 
 
-def _abstract_nl(terms):
-    """replace every maximal nonlinear arithmetic sub-term by a fresh real constant (same term -> same constant).
-    The abstraction only forgets facts, so `unsat` of the abstracted query implies `unsat` of the original."""
-    cache = {}
-    fresh = {}
+class _Abstraction(object):
+    """replace every maximal nonlinear arithmetic sub-term by a fresh constant (same term -> same constant).
+    The abstraction only forgets facts, so `unsat` of the abstracted query implies `unsat` of the original.
+    One instance per path: hypotheses are abstracted once and reused by every obligation of the path."""
 
+    def __init__(self):
+        self.cache = {}       # term id -> (abstracted term, term)   (terms kept alive: ids are unique among live terms)
+        self.fresh = {}       # id of rebuilt nonlinear node -> (constant, node)
+        self.top = {}         # id of original hypothesis -> (abstracted simplified hypothesis, original)
+        self.lemmas = []      # sound sign facts about the named products / quotients (keep the query linear)
+
+    @staticmethod
+    def sign_lemmas(x, ch, v):
+        """facts true of real multiplication / division, stated over the abstracted children"""
+        out = []
+        if z3.is_app_of(x, z3.Z3_OP_MUL):
+            nonneg = z3.And(*[c >= 0 for c in ch])
+            pos = z3.And(*[c > 0 for c in ch])
+            out += [z3.Implies(nonneg, v >= 0), z3.Implies(pos, v > 0), z3.Implies(z3.Or(*[c == 0 for c in ch]), v == 0)]
+            if len(ch) == 2:
+                a, b = ch
+                out += [z3.Implies(z3.And(a >= 0, b <= 0), v <= 0), z3.Implies(z3.And(a <= 0, b >= 0), v <= 0), z3.Implies(z3.And(a <= 0, b <= 0), v >= 0),
+                        z3.Implies(b == 1, v == a), z3.Implies(a == 1, v == b)]
+                if a.eq(b):
+                    out.append(v >= 0)
+        elif z3.is_app_of(x, z3.Z3_OP_DIV):
+            a, b = ch
+            out += [z3.Implies(z3.And(a >= 0, b > 0), v >= 0), z3.Implies(z3.And(a > 0, b > 0), v > 0), z3.Implies(z3.And(a <= 0, b > 0), v <= 0),
+                    z3.Implies(z3.And(a == 0, b != 0), v == 0), z3.Implies(b == 1, v == a), z3.Implies(z3.And(a == b, b != 0), v == 1)]
+        return out
+
+    @staticmethod
     def nl(x):
         if z3.is_app_of(x, z3.Z3_OP_MUL):
             return sum(1 for c in x.children() if _num(c) is None) > 1
@@ -1066,75 +1103,154 @@ def _abstract_nl(terms):
             return _num(x.arg(1)) is None
         return z3.is_app_of(x, z3.Z3_OP_POWER)
 
-    def go(x):
+    def go(self, x):
         k = x.get_id()
-        if k in cache:
-            return cache[k][0]
-        if z3.is_quantifier(x) or z3.is_var(x):
+        hit = self.cache.get(k)
+        if hit is not None:
+            return hit[0]
+        if z3.is_quantifier(x) or z3.is_var(x) or not z3.is_app(x) or x.num_args() == 0:
             r = x
-        elif nl(x):
-            # abstract the children first so that equal sub-terms stay equal, then name the product
-            ch = [go(c) for c in x.children()]
-            y = x.decl()(*ch)
-            kk = y.get_id()
-            if kk not in fresh:
-                fresh[kk] = (z3.Real('nl!%d' % len(fresh)) if z3.is_real(x) else z3.Int('nl!%d' % len(fresh)), y)
-            r = fresh[kk][0]
-        elif z3.is_app(x) and x.num_args() > 0:
-            ch = [go(c) for c in x.children()]
-            r = x.decl()(*ch)
         else:
-            r = x
-        cache[k] = (r, x)
+            ch = [self.go(c) for c in x.children()]
+            y = x.decl()(*ch)
+            if self.nl(x):
+                kk = y.get_id()
+                if kk not in self.fresh:
+                    v = z3.Real('nl!%d' % len(self.fresh)) if z3.is_real(x) else z3.Int('nl!%d' % len(self.fresh))
+                    self.fresh[kk] = (v, y)
+                    self.lemmas.extend(self.sign_lemmas(x, ch, v))
+                r = self.fresh[kk][0]
+            else:
+                r = y
+        self.cache[k] = (r, x)
         return r
-    keep = [z3.simplify(t) for t in terms]      # keep alive: ast ids are only unique among live terms
-    out = [go(t) for t in keep]
-    return out, len(fresh)
+
+    def term(self, t):
+        k = t.get_id()
+        hit = self.top.get(k)
+        if hit is None:
+            s = z3.simplify(t, som=True)      # sum-of-monomials: (1+j)*w - j*w cancels to w before products are named
+            hit = (self.go(s), t, s)
+            self.top[k] = hit
+        return hit[0]
+
+
+def _abstract_nl(terms, ab=None):
+    ab = ab or _Abstraction()
+    out = [ab.term(t) for t in terms]
+    return out + list(ab.lemmas), len(ab.fresh)
+
+
+def _forked(assertions, cpu_s, want_model=False, tactic=None):
+    """full (nonlinear) query in a forked child with a hard CPU limit: z3's own timeout is not honoured by every
+    nonlinear routine, and a CPU limit keeps verdicts independent of machine load.  -> (result, model-json or None)"""
+    import resource, select, json, signal
+    r, w = os.pipe()
+    pid = os.fork()
+    if pid == 0:
+        try:
+            os.close(r)
+            resource.setrlimit(resource.RLIMIT_CPU, (int(cpu_s) + 1, int(cpu_s) + 2))
+            if tactic:
+                sl = z3.Then(*tactic).solver()
+            else:
+                sl = z3.Solver()
+            sl.set('timeout', int(cpu_s * 1000))
+            for a in assertions:
+                sl.add(a)
+            res = sl.check()
+            out = {'r': str(res)}
+            if res == z3.sat and want_model:
+                c = _CTX[0]
+                try:
+                    out['m'] = c.concretise(sl.model()) if c is not None else None
+                except Exception as e:
+                    out['m'] = None
+            if res == z3.unknown:
+                out['why'] = sl.reason_unknown()
+            os.write(w, json.dumps(out, default=str).encode())
+        except BaseException:
+            pass
+        finally:
+            os._exit(0)
+    os.close(w)
+    buf = b''
+    deadline = time.time() + max(30.0, cpu_s * 8)
+    try:
+        while True:
+            left = deadline - time.time()
+            if left <= 0:
+                break
+            ready, _, _ = select.select([r], [], [], min(left, 5.0))
+            if ready:
+                chunk = os.read(r, 1 << 16)
+                if not chunk:
+                    break
+                buf += chunk
+    finally:
+        os.close(r)
+        try:
+            os.kill(pid, signal.SIGKILL)
+        except OSError:
+            pass
+        try:
+            os.waitpid(pid, 0)
+        except OSError:
+            pass
+    if not buf:
+        return 'unknown', None, 'resource limit (%ss cpu)' % cpu_s
+    d = json.loads(buf.decode())
+    return d['r'], d.get('m'), d.get('why', '')
 
 
 def discharge(hyps, goal, timeout_ms, quick=False):
-    """returns verdict ('proved'|'refuted'|'undecided'), model or None, backend, reason"""
-    # (A) nonlinear sub-terms abstracted to fresh constants: linear + UF, fast and stable; only `unsat` is used
+    """returns verdict ('proved'|'refuted'|'undecided'), model (concretised dict) or None, backend, reason.
+    (A) nonlinear sub-terms abstracted to fresh constants + sign lemmas: linear + UF, in process, only `unsat` is used
+        (exact when the query has no nonlinear term);
+    (B) the full query in a forked child with a CPU limit (skipped for `quick`, i.e. the silently applied lemmas);
+    (C) nlsat tactic, then cvc5 / z3 4.8 on an SMT-LIB dump."""
+    ver = 'z3-' + z3.get_version_string()
+    nfresh = 1
     try:
-        ab, nfresh = _abstract_nl(list(hyps) + [z3.Not(goal)])
-        if nfresh:
-            sa = z3.Solver()
-            sa.set('timeout', min(timeout_ms, 6000))
-            for h in ab:
-                sa.add(h)
-            if sa.check() == z3.unsat:
-                return 'proved', None, 'z3-' + z3.get_version_string() + ' (nonlinear terms abstracted)', ''
+        c = _CTX[0]
+        abst = c.__dict__.setdefault('_abst', _Abstraction()) if c is not None else None
+        ab, nfresh = _abstract_nl(list(hyps) + [z3.Not(goal)], abst)
+        sa = z3.Solver()
+        sa.set('timeout', min(max(timeout_ms, 2000), 10000))
+        for h in ab:
+            sa.add(h)
+        ra = sa.check()
+        if ra == z3.unsat:
+            return 'proved', None, ver + (' (nonlinear terms abstracted)' if nfresh else ''), ''
+        if ra == z3.sat and nfresh == 0:
+            m = None
+            if not quick and c is not None:
+                try:
+                    m = c.concretise(sa.model())
+                except Exception:
+                    m = None
+            return 'refuted', m, ver, ''
     except z3.Z3Exception:
         pass
-    s = z3.Solver()
-    s.set('timeout', timeout_ms)
-    for h in hyps:
-        s.add(h)
-    s.add(z3.Not(goal))
-    r = s.check()
-    if r == z3.unsat:
-        return 'proved', None, 'z3-' + z3.get_version_string(), ''
-    if r == z3.sat:
-        return 'refuted', s.model(), 'z3-' + z3.get_version_string(), ''
-    reason = s.reason_unknown()
     if quick:
-        return 'undecided', None, 'z3', reason
-    # second attempt: tactic-based (nlsat / qfnra)
+        return 'undecided', None, ver, 'abstraction inconclusive'
+    cpu = max(2, timeout_ms // 1000)
+    r, m, why = _forked(list(hyps) + [z3.Not(goal)], cpu, want_model=True)
+    if r == 'unsat':
+        return 'proved', None, ver + ' (forked, cpu-limited)', ''
+    if r == 'sat':
+        return 'refuted', m, ver + ' (forked, cpu-limited)', ''
+    reason = why
+    r2, m2, why2 = _forked(list(hyps) + [z3.Not(goal)], cpu, want_model=True, tactic=('simplify', 'solve-eqs', 'qfnra-nlsat'))
+    if r2 == 'unsat':
+        return 'proved', None, ver + '/qfnra-nlsat (forked)', ''
+    if r2 == 'sat':
+        return 'refuted', m2, ver + '/qfnra-nlsat (forked)', ''
     try:
-        t = z3.Then('simplify', 'solve-eqs', 'qfnra-nlsat')
-        s2 = t.solver()
-        s2.set('timeout', timeout_ms)
+        s = z3.Solver()
         for h in hyps:
-            s2.add(h)
-        s2.add(z3.Not(goal))
-        r2 = s2.check()
-        if r2 == z3.unsat:
-            return 'proved', None, 'z3-' + z3.get_version_string() + '/qfnra-nlsat', ''
-        if r2 == z3.sat:
-            return 'refuted', s2.model(), 'z3-' + z3.get_version_string() + '/qfnra-nlsat', ''
-    except z3.Z3Exception:
-        pass
-    try:
+            s.add(h)
+        s.add(z3.Not(goal))
         smt2 = '(set-logic ALL)\n' + s.to_smt2().replace('(set-info :status unknown)', '')
         ext, name = _external(smt2, timeout_ms)
         if ext == 'unsat':
